@@ -260,6 +260,28 @@ func ruleLogShapes(c *eng.Ctx) {
 			}
 		}
 		c.Check(okS, "Replace adopts the final file names", p.Pos(fn.Pos()), "s.suffix = \"\" before reopening", "the replacement keeps its temporary suffix: it reopens (and later deletes) the wrong files")
+		// close() seals; the replacement takes over the sealed state that the replaced segment had BEFORE it was closed here
+		// (an active segment that is truncated must stay unsealed, so that its later roll wakes the readers parked in it)
+		sealedF := p.Field(clPkg, "segment", "sealed")
+		okSeal := false
+		closes := eng.CallsIn(fn, cl+"segment.close")
+		for _, st := range eng.FieldStores(fn, func(fa *ssa.FieldAddr) bool { return fieldIs(fa, sealedF) }) {
+			if !eng.Param("s")(st.Addr.(*ssa.FieldAddr).X) {
+				continue
+			}
+			if eng.Load(sealedF, eng.Param("old"))(st.Val) {
+				// the load precedes every close() call
+				ld := eng.Strip(st.Val).(ssa.Instruction)
+				okSeal = true
+				for _, cc := range closes {
+					q := &eng.PathQuery{Fn: fn, FromAfter: []ssa.Instruction{cc.(ssa.Instruction)}, Target: func(x ssa.Instruction) bool { return x == ld }}
+					if q.Find() != nil {
+						okSeal = false
+					}
+				}
+			}
+		}
+		c.Check(okSeal && len(closes) >= 2, "Replace carries over whether the replaced segment was sealed", p.Pos(fn.Pos()), "s.sealed = (old.sealed read before old.close())", "Replace leaves the replacement sealed (close() seals it) whatever the replaced segment was: after a tail truncation the active segment counts as sealed, so when it is rolled Seal() does nothing and the readers parked at its end (replication's uncommitted readers among them) are never woken")
 	}
 	if fn := c.Fn(cl + "(*segment).waitForData"); fn != nil {
 		q := &eng.PathQuery{Fn: fn, FromEntry: true, Target: isReturn, CutInstr: func(x ssa.Instruction) bool {
